@@ -20,10 +20,16 @@ func h05cliEntries() []*yang.Entry {
   list li { key k; leaf k { type string; } leaf v { type decimal64 { fraction-digits 2; } } }
   rpc r { input { leaf i { type t2; } } output { leaf o { type uint16; } } }
 }`, "m.yang")
+	// a second module with typedefs that render like the first module's (the verbose form differs
+	// in the source position only)
+	ms.Parse(`module m2 { namespace "urn:m2"; prefix m2;
+  typedef t1 { type int8 { range "1..5"; } }
+  typedef t2 { type string { length "1..9"; pattern "a*"; } }
+  leaf a2 { type t1; } leaf b2 { type t2; } }`, "m2.yang")
 	if errs := ms.Process(); len(errs) > 0 {
 		return nil
 	}
-	return []*yang.Entry{yang.ToEntry(ms.Modules["m"])}
+	return []*yang.Entry{yang.ToEntry(ms.Modules["m"]), yang.ToEntry(ms.Modules["m2"])}
 }
 
 func H05cli() {
